@@ -47,6 +47,11 @@ def proto_ids():
     tab["xrep"] = (macro(xr, "REP0_SELF"), macro(xr, "REP0_PEER"))
     pb = "src/sp/protocol/pubsub0/pub.c"
     tab["pubraw"] = tab["pub"] = (macro(pb, "NNI_PROTO_PUB_V0"), macro(pb, "NNI_PROTO_SUB_V0"))
+    tab["sub"] = (macro(pb, "NNI_PROTO_SUB_V0"), macro(pb, "NNI_PROTO_PUB_V0"))
+    pl = "src/sp/protocol/pipeline0/pull.c"
+    tab["pull"] = (macro(pl, "NNI_PROTO_PULL_V0"), macro(pl, "NNI_PROTO_PUSH_V0"))
+    p1 = "src/sp/protocol/pair1/pair.c"
+    tab["pair1"] = (macro(p1, "PAIR1_SELF"), macro(p1, "PAIR1_PEER"))
     return tab
 
 
@@ -99,6 +104,7 @@ class Case:
         self.tran = tran
         self.complete = complete    # the whole stream was sent (all of expect must arrive)
         self.nomodel = False        # too large for the extracted model: judged by the spec oracle alone
+        self.lossy = False          # SUB with a short queue drops the oldest: deliveries are a subsequence
 
 
 def cuts_str(cuts):
@@ -225,6 +231,22 @@ def gen_wire_cases(rng, tier):
         t[7], t[9] = hx(st), str(k)
         c.line, c.expect = " ".join(t), msgs[:k]
         cases.append(c)
+    # (2d) back-pressure: the peer sends k = 2..10 complete messages while the application is NOT receiving (it starts
+    # 300 ms after the last byte); the protocol holds what its queue allows (RECVBUF 0 / 2 / default) and the transport must
+    # neither lose, merge nor reorder what waits below it
+    for i in range(30 if q else 400):
+        tran, role = TRANS[i % len(TRANS)]
+        proto = ["pair0", "pull", "sub", "pair1", "pair0", "pull"][(i // len(TRANS)) % 6]
+        k = rng.choice([2, 3, 5, 8, 10])
+        bodies = [rbytes(rng, rng.choice([0, 0, 1, 2, 10, 100, 1000] + ([70000] if i % 9 == 0 else []))) for _ in range(k)]
+        fl = "p" + rng.choice(["z", "B", ""])
+        hop = struct.pack(">I", 1)
+        msgs = [hop + b for b in bodies] if proto == "pair1" else bodies
+        c = rx_case("rx-backpressure", tran, role, proto, msgs, sorted(set(rng.randrange(1, 30) for _ in range(rng.choice([0, 1, 2])))),
+                    flags=fl, hdrs=[(hop, b) for b in bodies] if proto == "pair1" else None)
+        if proto == "sub" and "B" in fl:
+            c.lossy, c.nomodel, c.complete = True, True, False
+        cases.append(c)
     # (3) raw headers re-parsed by the receiving protocol (raw REP: backtrace words up to the request id)
     for i in range(20 if q else 300):
         tran, role = rng.choice(TRANS)
@@ -292,6 +314,25 @@ def gen_ws_cases(rng, tier, wsframe):
                     continue
                 h, b = rbytes(rng, hl), rbytes(rng, total - hl)
                 cases.append(Case("ws-tx-boundary", "wstx %s 0 %s 1" % (role, "%s:%s" % (h.hex(), b.hex())), "wstx", expect=[h + b]))
+        # back-pressure over ws (message mode): k complete messages, some fragmented, arrive while nobody receives
+        for i in range(8 if q else 150):
+            proto = ["pair0", "pull", "sub", "pair0"][i % 4]
+            k = rng.choice([2, 3, 5, 8, 10])
+            szs = [0, 0, 1, 10, 20, 80, 125, 126, 127, 1000] + ([65535, 65536] if i % 4 == 1 else [])
+            msgs, out = [], b""
+            for _ in range(k):
+                d = rbytes(rng, rng.choice(szs))
+                nf = rng.choice([1, 1, 1, 2, 3])
+                pts = sorted(rng.randrange(0, len(d) + 1) for _ in range(nf - 1))
+                parts = [d[a:b] for a, b in zip([0] + pts, pts + [len(d)])]
+                for j, p in enumerate(parts):
+                    out += wsframe(2 if j == 0 else 0, j == len(parts) - 1, p, masked, rbytes(rng, 4))
+                msgs.append(d)
+            fl = "p" + rng.choice(["z", "B", ""])
+            c = Case("ws-backpressure", "wsrx %s 0 %s - %d %s %s" % (role, hx(out), len(msgs), fl, proto), "wsrx", expect=msgs)
+            if proto == "sub" and "B" in fl:
+                c.lossy, c.nomodel, c.complete = True, True, False
+            cases.append(c)
         for i in range(10 if q else 200):
             fs = rng.choice([0, 0, 1, 4, 125, 126, 1000])
             msgs = [(rbytes(rng, rng.choice([0, 4, 8, 64])), rbytes(rng, rng.choice(SIZES + ([65535, 65536, 70000] if i < 2 else []))))
@@ -315,6 +356,13 @@ def gen_inproc_cases(rng, tier):
                 for _ in range(rng.choice([1, 2, 3, 8]))]
         cases.append(Case("inproc-" + mode, "inproc %s %s" % (mode, ",".join("%s:%s" % (h.hex(), b.hex()) for h, b in msgs)),
                           "inproc", expect=[h + b for h, b in msgs]))
+    # back-pressure over inproc: a thread sends, the receiver starts 300 ms later
+    for i in range(6 if q else 80):
+        mode = ["pair", "push"][i % 2]
+        msgs = [(rbytes(rng, rng.choice([0, 4, 8, 64])) if mode == "pair" else b"", rbytes(rng, rng.choice(SIZES)))
+                for _ in range(rng.choice([2, 3, 5, 10]))]
+        cases.append(Case("inproc-backpressure", "inprocbp %s %d %s" % (mode, rng.choice([0, 0, 2]),
+                          ",".join("%s:%s" % (h.hex(), b.hex()) for h, b in msgs)), "inproc", expect=[h + b for h, b in msgs]))
     return cases
 
 
@@ -451,13 +499,23 @@ def spec_check(case, out):
             if m:
                 h, b = m.group(1), unhx(m.group(2))
                 if getattr(case, "hdrs", None) is not None:
-                    # raw REP: header = pipe id + the backtrace, body = the rest
-                    item = (unhx(h[2:]) if h.startswith("P:") else None, b)
+                    # raw REP: header = pipe id + the backtrace, body = the rest; PAIRv1: header = the hop count
+                    item = (unhx(h[2:]) if h.startswith("P:") else unhx(h), b)
                 else:
                     item = b if h == "-" else None
                 (subs[-1] if subs is not None else got).append(item)
         lists = subs if subs is not None else [got]
         exp = case.expect if getattr(case, "hdrs", None) is None else case.hdrs
+        if case.lossy:
+            for g in lists:
+                k = 0
+                for a in g:
+                    while k < len(exp) and exp[k] != a:
+                        k += 1
+                    if k == len(exp):
+                        return "delivered a message that was not sent, or out of order, or a merged / split one"
+                    k += 1
+            return None
         for g in lists:
             if len(g) > len(exp):
                 return "more messages delivered than were sent (%d > %d): duplicated or split" % (len(g), len(exp))
